@@ -249,56 +249,9 @@ pick_len(hx_rng *r, uint32_t blk, uint32_t minlen, uint32_t maxlen, uint32_t has
         return n;
 }
 
-int
-hx_spec_from_kind(const char *kind, hx_rng *r, hx_spec *sp)
+static int
+spec_fill(const cdesc *c, const hdesc *h, int dir, int order_override, hx_rng *r, hx_spec *sp)
 {
-        char cbuf[40], hbuf[40];
-        const char *plus = strchr(kind, '+');
-        const char *colon = strchr(kind, ':');
-        size_t cl = plus ? (size_t) (plus - kind) : (colon ? (size_t) (colon - kind) : strlen(kind));
-        if (cl >= sizeof(cbuf))
-                return 0;
-        memcpy(cbuf, kind, cl);
-        cbuf[cl] = 0;
-        hbuf[0] = 0;
-        if (plus) {
-                size_t hl = colon ? (size_t) (colon - plus - 1) : strlen(plus + 1);
-                if (hl >= sizeof(hbuf))
-                        return 0;
-                memcpy(hbuf, plus + 1, hl);
-                hbuf[hl] = 0;
-        }
-        memset(sp, 0, sizeof(*sp));
-        const cdesc *c = NULL;
-        int dir = IMB_DIR_ENCRYPT;
-        if (cl == 0) {
-                c = &ctab[0];
-        } else {
-                char d = cbuf[cl - 1];
-                if (d != 'E' && d != 'D')
-                        return 0;
-                dir = d == 'E' ? IMB_DIR_ENCRYPT : IMB_DIR_DECRYPT;
-                cbuf[--cl] = 0;
-                if (cl && cbuf[cl - 1] == '-')
-                        cbuf[--cl] = 0;
-                for (int i = 0; i < NCTAB; i++)
-                        if (strcmp(ctab[i].name, cbuf) == 0)
-                                c = &ctab[i];
-                if (!c)
-                        return 0;
-        }
-        const hdesc *h = NULL;
-        if (hbuf[0]) {
-                for (int i = 0; i < NHTAB; i++)
-                        if (strcmp(htab[i].name, hbuf) == 0)
-                                h = &htab[i];
-                if (!h)
-                        return 0;
-        } else if (c->aead_hash)
-                h = hfind(c->aead_hash);
-        else
-                h = &htab[0];
-
         sp->cm = c->cm;
         sp->kl = c->kl;
         sp->ha = h->ha;
@@ -321,14 +274,8 @@ hx_spec_from_kind(const char *kind, hx_rng *r, hx_spec *sp)
                 sp->order = dir == IMB_DIR_ENCRYPT ? IMB_ORDER_HASH_CIPHER : IMB_ORDER_CIPHER_HASH;
         else
                 sp->order = dir == IMB_DIR_ENCRYPT ? IMB_ORDER_CIPHER_HASH : IMB_ORDER_HASH_CIPHER;
-        if (colon) {
-                if (strcmp(colon, ":CH") == 0)
-                        sp->order = IMB_ORDER_CIPHER_HASH;
-                else if (strcmp(colon, ":HC") == 0)
-                        sp->order = IMB_ORDER_HASH_CIPHER;
-                else
-                        return 0;
-        }
+        if (order_override)
+                sp->order = order_override;
 
         /* lengths */
         if (c->cm != IMB_CIPHER_NULL) {
@@ -366,12 +313,14 @@ hx_spec_from_kind(const char *kind, hx_rng *r, hx_spec *sp)
                         case IMB_AUTH_SM4_GCM:
                                 sp->aadlen = hx_below(r, 4) ? hx_below(r, 64) : hx_below(r, 600);
                                 sp->hlen = sp->len;
-                                if (h->ha == IMB_AUTH_AES_GMAC && hx_below(r, 5) == 0)
+                                if (h->ha == IMB_AUTH_AES_GMAC && c->cm == IMB_CIPHER_GCM &&
+                                    hx_below(r, 5) == 0)
                                         sp->ivlen = 1 + hx_below(r, 64);
                                 break;
                         case IMB_AUTH_AES_CCM:
                                 sp->aadlen = hx_below(r, 47);
-                                sp->ivlen = 7 + hx_below(r, 7);
+                                if (c->cm == IMB_CIPHER_CCM)
+                                        sp->ivlen = 7 + hx_below(r, 7);
                                 sp->hlen = sp->len;
                                 sp->hoff = sp->coff;
                                 break;
@@ -382,6 +331,12 @@ hx_spec_from_kind(const char *kind, hx_rng *r, hx_spec *sp)
                                 sp->hoff = sp->coff;
                                 break;
                         case IMB_AUTH_DOCSIS_CRC32: {
+                                if (c->cm != IMB_CIPHER_DOCSIS_SEC_BPI) {
+                                        /* mismatched pairing (to be rejected): keep the cipher part valid */
+                                        sp->hlen = sp->len ? sp->len : 16;
+                                        sp->hoff = sp->coff;
+                                        break;
+                                }
                                 /* ethernet PDU: hash range = frame without CRC, cipher starts 12
                                  * bytes in and covers the rest incl. the 4 CRC bytes */
                                 uint32_t frame = 14 + hx_below(r, 1500); /* without CRC */
@@ -413,6 +368,93 @@ hx_spec_from_kind(const char *kind, hx_rng *r, hx_spec *sp)
                 }
         }
         return 1;
+}
+
+int
+hx_spec_for(int cm, int kl, int ha, int dir, int order, hx_rng *r, hx_spec *sp)
+{
+        const cdesc *c = cfind(cm, kl);
+        const hdesc *h = hfind(ha);
+        memset(sp, 0, sizeof(*sp));
+        if (!c || !h)
+                return 0;
+        return spec_fill(c, h, dir, order, r, sp);
+}
+
+/* any catalogue key length for this mode (0 if the mode is not in the catalogue) */
+int
+hx_any_keylen(int cm)
+{
+        for (int i = 0; i < NCTAB; i++)
+                if (ctab[i].cm == cm)
+                        return ctab[i].kl;
+        return -1;
+}
+int
+hx_hash_known(int ha)
+{
+        return hfind(ha) != NULL;
+}
+int
+hx_spec_from_kind(const char *kind, hx_rng *r, hx_spec *sp)
+{
+        char cbuf[40], hbuf[40];
+        const char *plus = strchr(kind, '+');
+        const char *colon = strchr(kind, ':');
+        size_t cl = plus ? (size_t) (plus - kind) : (colon ? (size_t) (colon - kind) : strlen(kind));
+        if (cl >= sizeof(cbuf))
+                return 0;
+        memcpy(cbuf, kind, cl);
+        cbuf[cl] = 0;
+        hbuf[0] = 0;
+        if (plus) {
+                size_t hl = colon ? (size_t) (colon - plus - 1) : strlen(plus + 1);
+                if (hl >= sizeof(hbuf))
+                        return 0;
+                memcpy(hbuf, plus + 1, hl);
+                hbuf[hl] = 0;
+        }
+        memset(sp, 0, sizeof(*sp));
+        int order_override = 0;
+        const cdesc *c = NULL;
+        int dir = IMB_DIR_ENCRYPT;
+        if (cl == 0) {
+                c = &ctab[0];
+        } else {
+                char d = cbuf[cl - 1];
+                if (d != 'E' && d != 'D')
+                        return 0;
+                dir = d == 'E' ? IMB_DIR_ENCRYPT : IMB_DIR_DECRYPT;
+                cbuf[--cl] = 0;
+                if (cl && cbuf[cl - 1] == '-')
+                        cbuf[--cl] = 0;
+                for (int i = 0; i < NCTAB; i++)
+                        if (strcmp(ctab[i].name, cbuf) == 0)
+                                c = &ctab[i];
+                if (!c)
+                        return 0;
+        }
+        const hdesc *h = NULL;
+        if (hbuf[0]) {
+                for (int i = 0; i < NHTAB; i++)
+                        if (strcmp(htab[i].name, hbuf) == 0)
+                                h = &htab[i];
+                if (!h)
+                        return 0;
+        } else if (c->aead_hash)
+                h = hfind(c->aead_hash);
+        else
+                h = &htab[0];
+
+        if (colon) {
+                if (strcmp(colon, ":CH") == 0)
+                        order_override = IMB_ORDER_CIPHER_HASH;
+                else if (strcmp(colon, ":HC") == 0)
+                        order_override = IMB_ORDER_HASH_CIPHER;
+                else
+                        return 0;
+        }
+        return spec_fill(c, h, dir, order_override, r, sp);
 }
 
 /* ------------------------------------------------------------------ job construction */
